@@ -17,8 +17,14 @@ def expand_stage(seed, tier):
             if sid not in b["model_tables"]:
                 continue
             ext = expand.extract(r["modules"][sid], by[sid])
-            mt = expand.parse_model_tables(b["model_tables"][sid])
             checked += 1
+            if not b["model_tables"][sid].startswith("ranges="):
+                # the model (with the modules regenerated on this run) does not accept a declaration the derive expands
+                sdiffs.append({"what": "the model rejects the declaration, the derive expands it", "model": b["model_tables"][sid][:200],
+                               "expansion": "expanded", "props": ["C10", "C11", "C13", "C15"], "sid": sid,
+                               "decl": by[sid].rust_decl()[:3000], "note": by[sid].note})
+                continue
+            mt = expand.parse_model_tables(b["model_tables"][sid])
             for d in expand.compare_structure(by[sid], ext, mt):
                 d["sid"] = sid
                 d["decl"] = by[sid].rust_decl()[:3000]
